@@ -807,4 +807,60 @@ theorem handleClosed_extra (e : Engine) (hinv : Inv e) (hx : Extra false [] e.vi
         show passesPolicy o.packet e14.cfg.policy = true
         rw [hcfg]; exact this }
 
+/-! ### every history -/
+
+theorem new_extra (cfg : Config) : Extra false [] (Engine.new cfg).view :=
+  { x1a := fun _ id hc => by cases hc
+    x1b := fun _ id hc => by cases hc
+    x1c := fun _ id hc => by cases hc
+    x2 := fun id hi => by cases hi
+    x3 := fun id hi => by cases hi
+    x4 := fun id hc => by cases hc
+    x5 := ⟨List.nodup_nil, fun id hi => by cases hi⟩
+    x6 := fun id hc => by cases hc
+    x7 := fun id hi => by cases hi
+    x8 := fun id o ho => by cases ho
+    x9 := List.nodup_nil
+    cur := fun hs => by rcases hs with a | a <;> cases a
+    h1e := fun hs => by cases hs
+    op := fun _ id hi => by cases hi }
+
+/-- **One step keeps both layers of the invariant**, whatever the event -/
+theorem step_inv2 (e : Engine) (ev : Event) (hinv : Inv2 e) : Inv2 (step e ev).1 := by
+  refine ⟨step_inv e ev hinv.1, ?_⟩
+  obtain ⟨hi, hx⟩ := hinv
+  have hb : ∀ t, Inv (e.begin t) := fun t => by
+    obtain ⟨hok, h, hD, hS⟩ := hi
+    exact ⟨⟨hok.sorted, hok.ids, hok.userKind, hok.wc, hok.slow⟩, h, hD, hS⟩
+  have hbx : ∀ t, Extra false [] (e.begin t).view := fun t => hx
+  have hf : ∀ (en : Engine) (r : Res), Extra false [] en.view → Extra false [] (en.finish r).1.view := fun en r h => h
+  have hh : ∀ (x : Engine × Res), Extra false [] x.1.view → Extra false [] (haltOnErr x).1.view := by
+    intro x h
+    unfold haltOnErr
+    split
+    · exact h.halt
+    · exact h
+  cases ev with
+  | user t u => exact hf _ _ (handleUser_extra (e.begin t) u (hb t) (hbx t))
+  | opened t d => exact hf _ _ (hh _ (handleOpened_extra (e.begin t) d (hb t) (hbx t)))
+  | closed t => exact hf _ _ (hh _ (handleClosed_extra (e.begin t) (hb t) (hbx t)))
+  | data t bs => exact hf _ _ (hh _ (handleData_extra (e.begin t) bs (hb t) (hbx t)))
+  | writeDone t => exact hf _ _ (hh _ (handleWriteCompletion_extra (e.begin t) (hbx t)))
+  | service t cap pre => exact hf _ _ (service_extra (e.begin t) cap pre (hb t) (hbx t))
+  | queryNext t => exact hbx t
+  | reset t => exact hf _ _ (reset_extra (e.begin t))
+
+/-- **Every history.**  Both layers of the engine's invariant hold after any sequence of events. -/
+theorem run_inv2 : ∀ (evs : List Event) (e : Engine), Inv2 e → Inv2 (runEvents e evs).1 := by
+  intro evs
+  induction evs with
+  | nil => intro e h; exact h
+  | cons ev rest ih =>
+    intro e h
+    simp only [runEvents]
+    exact ih (step e ev).1 (step_inv2 e ev h)
+
+theorem inv2_after (cfg : Config) (evs : List Event) : Inv2 (runEvents (Engine.new cfg) evs).1 :=
+  run_inv2 evs _ ⟨new_inv cfg, new_extra cfg⟩
+
 end GV
